@@ -308,6 +308,20 @@ def unblock_guard(ctx, P, iters):
                                       e.where, witness(st))
         if not n:
             ctx.unrecognised("G3: no `<other>.release(x, self)` in %s.release_blocked_individual" % view.name)
+        # ... and whenever both hold the customer IS pulled: a path that pulls nobody must have refuted one of the two conditions
+        for st in w.paths_of(cls, fn):
+            if st.status == "raise" or any(e.kind == "call" and e.d["meth"] == "release" and e.d["recv"] != "self" for e in st.events):
+                continue
+            parts_ = [intify(e.d["formula"]) if e.pol else guards.neg(intify(e.d["formula"])) for e in st.events if e.kind == "guard"]
+            full_pc = ("const", True) if not parts_ else parts_[0] if len(parts_) == 1 else ("and", tuple(parts_))
+            want_ = ("or", (guards.neg(intify(("lt", "0", "self.len_blocked_queue"))), guards.neg(intify(("lt", "self.number_of_individuals", "self.node_capacity")))))
+            okk_ = guards.implies(full_pc, want_)[0]
+            ob.ok("%s:no-pull" % view.name, "no pull under %s" % guards.show(full_pc))
+            if not okk_ and (cls.name, "skip") not in done:
+                done.add((cls.name, "skip"))
+                ctx.violation(ob, "R5.unblock-guard", "%s.release_blocked_individual" % cls.name, "no release under %s" % guards.show(full_pc),
+                              "unblock-skipped", "a path pulls nobody in although neither `blocked queue empty` nor `node full` has been established: a customer stays "
+                              "blocked while its destination has space", loc(fn), witness(st))
 
 
 def unguarded_sites(ctx, P):
